@@ -92,6 +92,11 @@ func c11Reaches(f *ssa.Function, name string, depth int) bool {
 	if len(CallsTo(f, name)) > 0 {
 		return true
 	}
+	for _, a := range Anons(f) { // closures, incl. the bodies of range-over-func loops
+		if len(CallsTo(a, name)) > 0 {
+			return true
+		}
+	}
 	if depth <= 0 {
 		return false
 	}
@@ -105,6 +110,30 @@ func c11Reaches(f *ssa.Function, name string, depth int) bool {
 
 // c11PkgFns: the functions of content/file of the program being analysed (set by runC11 / the C12 rules that reuse the roles).
 var c11PkgFns []*ssa.Function
+
+// c11FuncsOfPkg: FuncsOfPkg plus every nested function literal, including the
+// synthesized yield closures of range-over-func loops (which carry a Synthetic
+// tag and are therefore dropped by the shared FuncsOfPkg).
+func c11FuncsOfPkg(p *Prog, rel string) []*ssa.Function {
+	base := p.FuncsOfPkg(rel)
+	seen := map[*ssa.Function]bool{}
+	var out []*ssa.Function
+	var add func(f *ssa.Function)
+	add = func(f *ssa.Function) {
+		if seen[f] || len(f.Blocks) == 0 {
+			return
+		}
+		seen[f] = true
+		out = append(out, f)
+		for _, a := range f.AnonFuncs {
+			add(a)
+		}
+	}
+	for _, f := range base {
+		add(f)
+	}
+	return out
+}
 
 func c11IsPathMutator(n string) bool { _, ok := c11PathArgs[n]; return ok }
 
@@ -288,6 +317,23 @@ func c11TaintStruct(t types.Type) string {
 	return ""
 }
 
+// c11CarrierStruct: an unexported named struct type of content/file other than Store.
+func c11CarrierStruct(t types.Type) bool {
+	for {
+		p, ok := t.Underlying().(*types.Pointer)
+		if !ok {
+			break
+		}
+		t = p.Elem()
+	}
+	n, ok := t.(*types.Named)
+	if !ok || n.Obj().Pkg() == nil || n.Obj().Exported() || n.Obj().Pkg().Path() != pkgPath(c11Pkg) {
+		return false
+	}
+	_, isStruct := n.Underlying().(*types.Struct)
+	return isStruct
+}
+
 func c11IsExportedAPI(fn *ssa.Function) bool {
 	o := fn.Object()
 	if o == nil || !o.Exported() {
@@ -329,7 +375,27 @@ func (f *c11Flow) provRoot(r ssa.Value, use ssa.Instruction, depth int, seen map
 		case fname == c11WorkDir:
 			add("trusted", "Store.workingDir")
 		default:
-			add("unknown", "field "+fname+" (not classified as trusted or attacker-controlled)")
+			// a field of an unexported in-package struct that merely carries a value (closure state turned into a
+			// struct): everything ever stored into that field
+			n := 0
+			if c11CarrierStruct(base) {
+				for _, g := range f.fns {
+					AllInstrs(g, func(in ssa.Instruction) {
+						st, ok := in.(*ssa.Store)
+						if !ok {
+							return
+						}
+						fa, ok := st.Addr.(*ssa.FieldAddr)
+						if ok && fa.Field == idx && fieldName(fa.X.Type(), fa.Field) == fname {
+							n++
+							f.prov(st.Val, st, depth+1, seen, out)
+						}
+					})
+				}
+			}
+			if n == 0 {
+				add("unknown", "field "+fname+" (not classified as trusted or attacker-controlled)")
+			}
 		}
 	}
 	switch u := r.(type) {
@@ -495,10 +561,25 @@ func (f *c11Flow) provClosureParam(fn *ssa.Function, idx int, depth int, seen ma
 		}
 		for _, ref := range *mc.Referrers() {
 			call, ok := ref.(*ssa.Call)
-			if !ok || CalleeName(call) != "(*sync.Map).Range" || len(call.Call.Args) != 2 || call.Call.Args[1] != ssa.Value(mc) {
+			if !ok {
+				continue
+			}
+			var mapArg ssa.Value
+			switch {
+			case CalleeName(call) == "(*sync.Map).Range" && len(call.Call.Args) == 2 && call.Call.Args[1] == ssa.Value(mc):
+				mapArg = call.Call.Args[0]
+			case len(call.Call.Args) == 1 && call.Call.Args[0] == ssa.Value(mc):
+				// `for k, v := range m.Range`: the bound method value m.Range called with the loop body
+				if bm, isMC := call.Call.Value.(*ssa.MakeClosure); isMC && len(bm.Bindings) == 1 {
+					if g := bm.Fn.(*ssa.Function); strings.HasPrefix(g.Synthetic, "bound method") && strings.HasPrefix(fnFullName(g), "(*sync.Map).Range") {
+						mapArg = bm.Bindings[0]
+					}
+				}
+			}
+			if mapArg == nil {
 				continue // other uses are judged by provClosureViaDynamicCalls
 			}
-			fa, ok := call.Call.Args[0].(*ssa.FieldAddr)
+			fa, ok := mapArg.(*ssa.FieldAddr)
 			if !ok {
 				add("unknown", "sync.Map.Range over a map that is not a struct field")
 				found = true
@@ -756,7 +837,7 @@ func c11OpenFlags(p *Prog, call ssa.CallInstruction) (writes, follows, known boo
 }
 
 func runC11(c *Ctx) {
-	fns := c.P.FuncsOfPkg(c11Pkg)
+	fns := c11FuncsOfPkg(c.P, c11Pkg)
 	if len(fns) == 0 {
 		c.LostAnchor("C11.R1.sanitiser-dominance", "package ~/"+c11Pkg)
 		return
@@ -919,6 +1000,12 @@ func c11SameLoc(a, b ssa.Value) bool {
 	if !ok1 || !ok2 || la.Op != token.MUL || lb.Op != token.MUL {
 		return false
 	}
+	if fva, isA := la.X.(*ssa.FreeVar); isA {
+		// two loads of the same captured variable that the closure itself never assigns
+		if fvb, isB := lb.X.(*ssa.FreeVar); isB && fva == fvb && !freeVarWritten(fva.Parent(), fva) {
+			return true
+		}
+	}
 	fa, ok1 := la.X.(*ssa.FieldAddr)
 	fb, ok2 := lb.X.(*ssa.FieldAddr)
 	if !ok1 || !ok2 || fa.Field != fb.Field || !c11SameRoots(fa.X, fb.X) {
@@ -1037,14 +1124,83 @@ func c11DotDotTestsIn(fn *ssa.Function, subject func(ssa.Value) bool, helpers bo
 			if !subject(other) {
 				continue
 			}
-			if x.Op == token.EQL {
-				eqPass = append(eqPass, f)
-			} else {
-				eqPass = append(eqPass, t)
+			pass := f
+			if x.Op == token.NEQ {
+				pass = t
+			}
+			eqPass = append(eqPass, pass)
+			if c11IsFirstComponent(other) {
+				// first, _, _ := strings.Cut(rel, "/"); first == ".."  ⇔  rel == ".." || HasPrefix(rel, "../")
+				prefixPass = append(prefixPass, pass)
+			}
+		}
+	}
+	// rest, ok := strings.CutPrefix(rel, ".."): not ok ⇒ both pass; rest != "" ⇒ not "..";
+	// rest does not start with a separator ⇒ not below "../"
+	for _, cp := range CallsTo(fn, "strings.CutPrefix") {
+		k, isK := constString(cp.Common().Args[1])
+		if !isK || k != ".." || !subject(cp.Common().Args[0]) {
+			continue
+		}
+		rest, okv := ResultOf(cp, 0), ResultOf(cp, 1)
+		if okv != nil {
+			_, fe := BoolTests(fn, Aliases(okv))
+			prefixPass = append(prefixPass, fe...)
+			eqPass = append(eqPass, fe...)
+		}
+		if rest == nil {
+			continue
+		}
+		ra := Aliases(rest)
+		for _, i := range Ifs(fn) {
+			cond, t, f := ifEdges(i)
+			switch x := cond.(type) {
+			case *ssa.BinOp:
+				if x.Op != token.EQL && x.Op != token.NEQ {
+					continue
+				}
+				uneq := f
+				if x.Op == token.NEQ {
+					uneq = t
+				}
+				if s0, isS := constString(x.Y); isS && s0 == "" && ra[x.X] {
+					eqPass = append(eqPass, uneq)
+				}
+				if ix, isIx := x.X.(*ssa.Index); isIx && ra[ix.X] {
+					if i0, isI := constInt(ix.Index); isI && i0 == 0 {
+						if sep, isSep := constInt(x.Y); isSep && (sep == '/' || sep == '\\') {
+							prefixPass = append(prefixPass, uneq)
+						}
+					}
+				}
+			case *ssa.Call:
+				if CalleeName(x) == "strings.HasPrefix" && ra[x.Call.Args[0]] {
+					if sep, isSep := constString(x.Call.Args[1]); isSep && (sep == "/" || sep == `\\`) {
+						prefixPass = append(prefixPass, f)
+					}
+				}
 			}
 		}
 	}
 	return
+}
+
+// c11IsFirstComponent: v is the part before the first separator: result #0 of strings.Cut(x, "/").
+func c11IsFirstComponent(v ssa.Value) bool {
+	for _, r := range Roots(v) {
+		ex, ok := r.(*ssa.Extract)
+		if !ok || ex.Index != 0 {
+			return false
+		}
+		call, ok := ex.Tuple.(*ssa.Call)
+		if !ok || CalleeName(call) != "strings.Cut" {
+			return false
+		}
+		if sep, isSep := constString(call.Call.Args[1]); !isSep || (sep != "/" && sep != `\\`) {
+			return false
+		}
+	}
+	return len(Roots(v)) > 0
 }
 
 func c11AllAtomsPass(atoms []RetAtom, cutOf func() *cut) bool {
@@ -1219,6 +1375,9 @@ func c11R2Lexical(c *Ctx, R2 string, S *ssa.Function, hasAllow bool) {
 		if s, isStr := constString(a.Val); isStr && s == "" {
 			continue
 		}
+		if _, isZero := a.Val.(zeroMarker); isZero {
+			continue // result variable captured by a closure (range-over-func body) that sets it next to an error
+		}
 		for _, r := range Roots(a.Val) {
 			retRoots[r] = true
 		}
@@ -1331,6 +1490,9 @@ func c11PredicateImplies(P *ssa.Function, argIdx int) (prefix, eq map[bool]bool)
 			}
 			if other != nil && subj(other) {
 				exprEq[x] = x.Op == token.NEQ
+				if c11IsFirstComponent(other) {
+					exprPfx[x] = x.Op == token.NEQ
+				}
 			}
 		}
 	})
@@ -1359,6 +1521,338 @@ func c11PredicateImplies(P *ssa.Function, argIdx int) (prefix, eq map[bool]bool)
 	decide(pfxE, exprPfx, prefix)
 	decide(eqE, exprEq, eq)
 	return
+}
+
+// c11ProbeBaseCallers: the base the ancestors are probed under (parameters kIdx
+// of sanitiser S) is the very value the callers join S's result with.
+func c11ProbeBaseCallers(c *Ctx, R2, tn string, S *ssa.Function, kIdx map[int]bool, pos token.Pos) {
+	okBase, evidence := len(kIdx) > 0, 0
+	why := "the probed path is not built from a parameter of the sanitiser"
+	if okBase {
+		for _, g := range c11PkgFns {
+			for _, call := range Calls(g, func(string) bool { return true }) {
+				if StaticCallee(call) != S {
+					continue
+				}
+				res := ResultOf(call, 0)
+				if res == nil {
+					continue
+				}
+				for _, j := range CallsTo(g, "path/filepath.Join") {
+					var jels []ssa.Value
+					for _, a := range j.Common().Args {
+						c11SliceElems(a, &jels)
+					}
+					usesRes, usesBase := false, false
+					for _, e := range jels {
+						if c11SameRoots(e, res) {
+							usesRes = true
+						}
+						for k := range kIdx {
+							if k < len(call.Common().Args) && c11SameLoc(e, call.Common().Args[k]) {
+								usesBase = true
+							}
+						}
+					}
+					if usesRes {
+						evidence++
+						if !usesBase {
+							okBase = false
+							why = "the caller " + FnName(g) + " joins the sanitised relative path with a base that is not the one the ancestors were probed under"
+						}
+					}
+				}
+			}
+		}
+	}
+	if okBase && evidence == 0 {
+		c.Undecided(R2, tn+"|ancestor-probe-uses-write-base", pos, "no caller joins the sanitiser's result with a base: cannot tell which base the ancestors must be probed under")
+		return
+	}
+	c.Check(R2, tn+"|ancestor-probe-uses-write-base", pos, okBase,
+		ifelse(okBase, "the ancestors are Lstat'ed under the same base value the callers join the result with", why+
+			": the probe is resolved against another directory (e.g. the process working directory), finds nothing, and a symlinked ancestor under the real base goes unnoticed"))
+}
+
+// ---------- range-over-func loops ----------
+
+// c11RangeFunc is one `for x := range seq` over a function iterator, as lowered
+// by go/ssa: seq(yield) with a synthesized yield closure holding the body.
+type c11RangeFunc struct {
+	Call  *ssa.Call     // seq(yield) in the consuming function
+	Yield *ssa.Function // the loop body
+	PCall *ssa.Call     // the call producing seq (nil if seq is not the result of an in-module call)
+	PC    *ssa.Function // the producer closure func(yield) (nil if unknown)
+}
+
+func c11RangeFuncs(fn *ssa.Function) []c11RangeFunc {
+	var out []c11RangeFunc
+	for _, call := range Calls(fn, func(string) bool { return true }) {
+		cv, ok := call.(*ssa.Call)
+		if !ok || cv.Call.IsInvoke() || StaticCallee(call) != nil || len(cv.Call.Args) != 1 {
+			continue
+		}
+		mc, ok := cv.Call.Args[0].(*ssa.MakeClosure)
+		if !ok {
+			continue
+		}
+		Y := mc.Fn.(*ssa.Function)
+		if Y.Signature.Results().Len() != 1 || len(Y.Blocks) == 0 {
+			continue
+		}
+		rf := c11RangeFunc{Call: cv, Yield: Y}
+		for _, r := range Roots(cv.Call.Value) {
+			pc, ok := r.(*ssa.Call)
+			if !ok {
+				continue
+			}
+			P := StaticCallee(pc)
+			if P == nil || !inModule(P) || len(P.Blocks) == 0 {
+				continue
+			}
+			for _, ret := range Returns(P) {
+				for _, rr := range Roots(ret.Results[0]) {
+					if pmc, ok := rr.(*ssa.MakeClosure); ok {
+						rf.PCall, rf.PC = pc, pmc.Fn.(*ssa.Function)
+					}
+				}
+			}
+		}
+		out = append(out, rf)
+	}
+	return out
+}
+
+func c11YieldReturns(Y *ssa.Function) (cont, stop []*ssa.Return) {
+	for _, ret := range Returns(Y) {
+		if len(ret.Results) != 1 {
+			continue
+		}
+		if k, ok := ret.Results[0].(*ssa.Const); ok && k.Value != nil && constant.BoolVal(k.Value) {
+			cont = append(cont, ret)
+		} else {
+			stop = append(stop, ret)
+		}
+	}
+	return
+}
+
+// c11R2AncestorWalkIter: the ancestor walk written as a range-over-func loop:
+// a producer yields Dir(rel), Dir(Dir(rel)), … until "."; the body Lstats
+// base+dir and rejects symbolic links.  Same obligations as the plain loop.
+func c11R2AncestorWalkIter(c *Ctx, R2 string, S *ssa.Function) bool {
+	tn := FnName(S)
+	pick := func(f *ssa.Function) *c11RangeFunc {
+		for _, rf := range c11RangeFuncs(f) {
+			if len(CallsTo(rf.Yield, "os.Lstat")) > 0 {
+				r := rf
+				return &r
+			}
+		}
+		return nil
+	}
+	fn, links := c11FindUnit(S, func(f *ssa.Function) bool { return pick(f) != nil }, 3, map[*ssa.Function]bool{})
+	if fn == nil {
+		return false
+	}
+	rf := pick(fn)
+	Y := rf.Yield
+	L := CallsTo(Y, "os.Lstat")[0]
+	linkOK := c11LinksPass(links)
+	atoms := c11SuccessAtoms(fn)
+	relRes := c11RelLike(S, links)
+	cont, stop := c11YieldReturns(Y)
+	var elem ssa.Value
+	if len(Y.Params) > 0 {
+		elem = Y.Params[0]
+	}
+	// (a) not bypassed
+	ok := linkOK && len(atoms) > 0 && c11AllAtomsPass(atoms, func() *cut { return newCut().Instr(rf.Call) })
+	c.Check(R2, tn+"|ancestor-walk-not-bypassed", L.Pos(), ok,
+		ifelse(ok, "every successful return lies behind the iteration over the ancestors", "a successful return is reachable without running the ancestor symlink walk"))
+	// (b) the producer yields every parent: starts at Dir(rel), steps with Dir(dir), yields each one
+	okWalk := elem != nil && c11DerivesFrom(L.Common().Args[0], map[ssa.Value]bool{elem: true}) && rf.PC != nil && rf.PCall != nil
+	okExit := okWalk
+	if okWalk {
+		PC, P := rf.PC, StaticCallee(rf.PCall)
+		var loop *Loop
+		var phi *ssa.Phi
+		var ycall *ssa.Call
+		for _, l := range Loops(PC) {
+			for _, call := range Calls(PC, func(string) bool { return true }) {
+				cv, isCall := call.(*ssa.Call)
+				if !isCall || len(PC.Params) == 0 || cv.Call.Value != ssa.Value(PC.Params[0]) || !l.Contains(cv) || len(cv.Call.Args) == 0 {
+					continue
+				}
+				for _, in := range l.Header.Instrs {
+					if p, isPhi := in.(*ssa.Phi); isPhi && c11DerivesFrom(cv.Call.Args[0], map[ssa.Value]bool{p: true}) {
+						loop, phi, ycall = l, p, cv
+					}
+				}
+			}
+		}
+		if loop == nil {
+			okWalk, okExit = false, false
+		} else {
+			pparams := map[ssa.Value]bool{}
+			for _, q := range P.Params {
+				pparams[q] = true
+			}
+			for i, e := range phi.Edges {
+				dc, isCall := strip(e).(*ssa.Call)
+				if !isCall || CalleeName(dc) != "path/filepath.Dir" {
+					okWalk = false
+					continue
+				}
+				if loop.Blocks[loop.Header.Preds[i]] {
+					if !c11DerivesFrom(dc.Call.Args[0], map[ssa.Value]bool{phi: true}) {
+						okWalk = false
+					}
+				} else if !c11DerivesFrom(dc.Call.Args[0], pparams) {
+					okWalk = false
+				}
+			}
+			// what the producer is given is the relative path
+			given := false
+			for _, a := range rf.PCall.Call.Args {
+				if c11DerivesFrom(a, relRes) {
+					given = true
+				}
+			}
+			if !given {
+				okWalk = false
+			}
+			// every iteration yields
+			for _, sc := range loop.Header.Succs {
+				if loop.Blocks[sc] && reach(sc, 0, loop.Header.Instrs[0], newCut().Instr(ycall)) {
+					okWalk = false
+				}
+			}
+			// the producer stops only at the base test or when the body asked to stop
+			for _, e := range loop.Exits {
+				ifi, isIf := e.From.Instrs[len(e.From.Instrs)-1].(*ssa.If)
+				if !isIf {
+					okExit = false
+					continue
+				}
+				cond, _, f := ifEdges(ifi)
+				if cond == ssa.Value(ycall) && e == f {
+					continue // yield returned false
+				}
+				if bo, isBin := cond.(*ssa.BinOp); isBin && (bo.Op == token.EQL || bo.Op == token.NEQ) {
+					cur := map[ssa.Value]bool{phi: true}
+					_, kx := strip(bo.X).(*ssa.Const)
+					_, ky := strip(bo.Y).(*ssa.Const)
+					if (ky && c11DerivesFrom(bo.X, cur)) || (kx && c11DerivesFrom(bo.Y, cur)) {
+						continue
+					}
+				}
+				okExit = false
+			}
+		}
+	}
+	c.Check(R2, tn+"|ancestor-walk-covers-every-parent", L.Pos(), okWalk,
+		ifelse(okWalk, "the producer yields Dir(rel), Dir(Dir(rel)), … and the body Lstats base+dir for each", "the ancestor iteration does not start at the entry's parent, does not step to each parent, or the body does not probe base+ancestor: some ancestor is never checked"))
+	// the body stops the iteration only with an error recorded in the enclosing function's result
+	for _, ret := range stop {
+		var errStores []ssa.Instruction
+		AllInstrs(Y, func(in ssa.Instruction) {
+			if st, isStore := in.(*ssa.Store); isStore {
+				if _, isFV := st.Addr.(*ssa.FreeVar); isFV && isErrorType(st.Val.Type()) && ErrNilStatus(st.Val, 0) != IsNil {
+					errStores = append(errStores, st)
+				}
+			}
+		})
+		if len(errStores) == 0 || !MustPass(ret, newCut().Instr(errStores...)) {
+			okExit = false
+		}
+	}
+	c.Check(R2, tn+"|ancestor-walk-left-only-at-base", L.Pos(), okExit,
+		ifelse(okExit, "the iteration ends only when the cursor reaches the base or the body stops it with an error", "the ancestor walk can be left early before the cursor reaches the base without an error: "+
+			"a symbolic link higher up is never examined, later entries are written through it"))
+	// probe base
+	if elem != nil {
+		var els []ssa.Value
+		if rs := Roots(L.Common().Args[0]); len(rs) == 1 {
+			if jc, isCall := rs[0].(*ssa.Call); isCall {
+				for _, a := range jc.Call.Args {
+					c11SliceElems(a, &els)
+				}
+			}
+		}
+		kIdx := map[int]bool{}
+		for _, e := range els {
+			if c11DerivesFrom(e, map[ssa.Value]bool{elem: true}) {
+				continue
+			}
+			for i, q := range fn.Params {
+				if c11DerivesFrom(e, map[ssa.Value]bool{q: true}) {
+					for _, v := range c11Lift([]ssa.Value{q}, links) {
+						for _, rt := range Roots(v) {
+							if prm, isP := rt.(*ssa.Parameter); isP && prm.Parent() == S {
+								for k, sq := range S.Params {
+									if sq == prm {
+										kIdx[k] = true
+									}
+								}
+							}
+						}
+					}
+					if fn == S {
+						kIdx[i] = true
+					}
+				}
+			}
+		}
+		c11ProbeBaseCallers(c, R2, tn, S, kIdx, L.Pos())
+	}
+	// (c) every iteration Lstats
+	okIter := len(cont) > 0
+	for _, ret := range cont {
+		if reach(Y.Blocks[0], 0, ret, newCut().Instr(L.(ssa.Instruction))) {
+			okIter = false
+		}
+	}
+	c.Check(R2, tn+"|ancestor-lstat-every-iteration", L.Pos(), okIter,
+		ifelse(okIter, "every iteration of the walk executes os.Lstat", "an iteration of the ancestor walk can skip os.Lstat"))
+	// (d) symlink => error
+	info := ResultOf(L, 0)
+	if info == nil {
+		c.Violation(R2, tn+"|ancestor-symlink-rejected", L.Pos(), "the FileInfo of the ancestor is discarded: symbolic links are not detected")
+		return true
+	}
+	sym, notSym := c11SymlinkEdges(c.P, Y, Aliases(info))
+	if len(sym) == 0 {
+		c.Undecided(R2, tn+"|ancestor-symlink-rejected", L.Pos(), "no ModeSymlink test on the ancestor's FileInfo in a recognised form (info.Mode()&os.ModeSymlink compared with 0)")
+		return true
+	}
+	okSym := okExit
+	for _, e := range sym {
+		for _, ret := range cont {
+			if reach(e.To, 0, ret, nil) {
+				okSym = false
+			}
+		}
+	}
+	if e := ErrOf(L); e != nil {
+		nilE, _, _ := NilTests(Y, Aliases(e))
+		if len(nilE) == 0 {
+			okSym = false
+		}
+		for _, ne := range nilE {
+			for _, ret := range cont {
+				if reach(ne.To, 0, ret, newCut().Edges(sym...).Edges(notSym...)) {
+					okSym = false
+				}
+			}
+		}
+	} else {
+		okSym = false
+	}
+	c.Check(R2, tn+"|ancestor-symlink-rejected", L.Pos(), okSym,
+		ifelse(okSym, "a symbolic-link ancestor always stops the iteration with an error; the test follows every successful Lstat",
+			"an ancestor that is a symbolic link does not (always) make the sanitiser fail: entries can be written through a planted link"))
+	return true
 }
 
 // c11R2WritePathAncestors: a name whose *parent* components pass through a
@@ -1554,6 +2048,9 @@ func c11R2AncestorWalk(c *Ctx, R2 string, S *ssa.Function) {
 		return false
 	}, 3, map[*ssa.Function]bool{})
 	if fn == nil {
+		if c11R2AncestorWalkIter(c, R2, S) {
+			return
+		}
 		c.Violation(R2, tn+"|ancestor-walk", S.Pos(), "no loop that Lstats the ancestors of the entry: a symbolic link planted by an earlier entry redirects later writes outside")
 		return
 	}
@@ -1652,52 +2149,7 @@ func c11R2AncestorWalk(c *Ctx, R2 string, S *ssa.Function) {
 				}
 			}
 		}
-		okBase, evidence := len(kIdx) > 0, 0
-		why := "the probed path is not built from a parameter of the sanitiser"
-		if okBase {
-			for _, g := range c11PkgFns {
-				for _, call := range Calls(g, func(string) bool { return true }) {
-					if StaticCallee(call) != S {
-						continue
-					}
-					res := ResultOf(call, 0)
-					if res == nil {
-						continue
-					}
-					for _, j := range CallsTo(g, "path/filepath.Join") {
-						var jels []ssa.Value
-						for _, a := range j.Common().Args {
-							c11SliceElems(a, &jels)
-						}
-						usesRes, usesBase := false, false
-						for _, e := range jels {
-							if c11SameRoots(e, res) {
-								usesRes = true
-							}
-							for k := range kIdx {
-								if k < len(call.Common().Args) && c11SameRoots(e, call.Common().Args[k]) {
-									usesBase = true
-								}
-							}
-						}
-						if usesRes {
-							evidence++
-							if !usesBase {
-								okBase = false
-								why = "the caller " + FnName(g) + " joins the sanitised relative path with a base that is not the one the ancestors were probed under"
-							}
-						}
-					}
-				}
-			}
-		}
-		if okBase && evidence == 0 {
-			c.Undecided(R2, tn+"|ancestor-probe-uses-write-base", L.Pos(), "no caller joins the sanitiser's result with a base: cannot tell which base the ancestors must be probed under")
-		} else {
-			c.Check(R2, tn+"|ancestor-probe-uses-write-base", L.Pos(), okBase,
-				ifelse(okBase, "the ancestors are Lstat'ed under the same base value the callers join the result with", why+
-					": the probe is resolved against another directory (e.g. the process working directory), finds nothing, and a symlinked ancestor under the real base goes unnoticed"))
-		}
+		c11ProbeBaseCallers(c, R2, tn, S, kIdx, L.Pos())
 	}
 	c.Check(R2, tn+"|ancestor-walk-covers-every-parent", L.Pos(), okWalk,
 		ifelse(okWalk, "the walk starts at Dir(rel), steps with Dir(dir) and Lstats base+dir", "the ancestor walk does not start at the entry's parent, does not step to each parent, or does not probe base+ancestor: some ancestor is never checked"))
